@@ -638,7 +638,15 @@ class Engine:
 
     def e_BoolOp(self, node, fr):
         if self.pure:
-            vals = [self.truth(self.eval(v, fr)) for v in node.values]
+            # contract expressions: operands after a STATICALLY decided one are not evaluated (`hasattr(x, 'f') and x.f > 0`
+            # where the static type of x has no field f)
+            vals = []
+            for v in node.values:
+                t = self.truth(self.eval(v, fr))
+                vals.append(t)
+                st_ = z3.simplify(t)
+                if (isinstance(node.op, ast.And) and z3.is_false(st_)) or (isinstance(node.op, ast.Or) and z3.is_true(st_)):
+                    break
             return vbool(z3.And(vals) if isinstance(node.op, ast.And) else z3.Or(vals))
         # exec mode: short-circuit with forks, value semantics (returns last evaluated operand)
         last = None
@@ -907,6 +915,12 @@ class Engine:
             return VNONE
         if isinstance(node.func, ast.Name) and node.func.id in ('old', 'pre') and self.pure:
             return self.special_old_pre(node, fr)
+        if isinstance(node.func, ast.Name) and node.func.id == 'implies' and self.pure and len(node.args) == 2:
+            # implies(a, b) with a statically false: b is not evaluated (it may not even type-check for this instance)
+            a = self.truth(self.eval(node.args[0], fr))
+            if z3.is_false(z3.simplify(a)):
+                return vbool(True)
+            return vbool(z3.Implies(a, self.truth(self.eval(node.args[1], fr))))
         fobj = self.eval(node.func, fr)
         args = []
         for a in node.args:
@@ -1422,7 +1436,7 @@ class Engine:
                 n = stack.pop()
                 if isinstance(n, (ast.FunctionDef, ast.AsyncFunctionDef, ast.Lambda, ast.ClassDef)):
                     continue
-                if isinstance(n, ast.Return if kind == 'return' else ast.Raise):
+                if isinstance(n, {'return': ast.Return, 'raise': ast.Raise, 'continue': ast.Continue}[kind]):
                     nodes.append(n)
                 stack.extend(reversed(list(ast.iter_child_nodes(n))))
             nodes.sort(key=lambda n: (n.lineno, n.col_offset))
@@ -1477,6 +1491,10 @@ class Engine:
         except PyRaise as e:
             for h in s.handlers:
                 if self.handler_matches(h, e, fr):
+                    # ghost: "an `except <Class>` clause of this activation caught something" - n_events('Handled:<Class>')
+                    if h.type is not None and not self.pure:
+                        t0 = h.type.elts[0] if isinstance(h.type, ast.Tuple) else h.type
+                        self.trace_event('Handled:' + ast.unparse(t0).split('.')[-1], None, e.cls)
                     if h.name:
                         if self.contract is not None and self.contract.extra.get('exceptions_as_bare_failures'):
                             # the exception instance travels on as data where a Failure may also travel (a list of
@@ -1513,6 +1531,11 @@ class Engine:
             o = self.eval(x, fr)
             if isinstance(o, PyObj) and o.kind == 'excclass':
                 names.append(o.payload)
+            elif isinstance(o, PyObj) and o.kind == 'class' and getattr(o.payload, 'bases', None) and \
+                    (o.payload.bases[0] in self.exc.parent or o.payload.bases[0] == 'Exception'):
+                # an exception class defined next to the code (not in afkak/common.py): registered under its own name
+                self.exc.parent.setdefault(o.payload.name, o.payload.bases[0])
+                names.append(o.payload.name)
             else:
                 raise Unsupported('except clause type %r' % (o,))
         if getattr(e, 'unknown', False) and not any(self.exc.issub('Exception', n) for n in names):
@@ -1561,6 +1584,7 @@ class Engine:
         raise _Break()
 
     def s_Continue(self, s, fr):
+        self.stmt_checkpoint(s, fr, 'continue')
         raise _Continue()
 
     def s_For(self, s, fr):
